@@ -24,6 +24,7 @@ type AssignTarget struct {
 	Glob  string // global variable component prefix
 	Cond  Term   // optional guard
 	Whole bool   // every component rooted at Base's object type
+	Any   bool   // any object of the kind (anyelems(T)): the base is not constrained
 }
 
 func (f *Frame) assignsAllow(comp string, base Term) Term {
@@ -41,6 +42,10 @@ func (f *Frame) assignsAllow(comp string, base Term) Term {
 			if !(strings.HasPrefix(a.Root, "M|") && mapCompOf(comp) == a.Root[2:]) {
 				continue
 			}
+		}
+		if a.Any {
+			alts = append(alts, True)
+			continue
 		}
 		alts = append(alts, Eq(base, a.Base))
 	}
@@ -159,6 +164,59 @@ func (f *Frame) ownKinds() map[string]bool {
 		walk(res.At(i).Type())
 	}
 	return rf.resKinds
+}
+
+// paramKinds: allocation kinds type-reachable from the root function's
+// parameters (what its operands can consist of).
+func (f *Frame) paramKinds() map[string]bool {
+	rf := f.rootFrame()
+	if rf.parKinds != nil {
+		return rf.parKinds
+	}
+	rf.parKinds = map[string]bool{}
+	seen := map[string]bool{}
+	var walk func(t types.Type)
+	walk = func(t types.Type) {
+		k := types.TypeString(t, nil)
+		if seen[k] {
+			return
+		}
+		seen[k] = true
+		switch u := t.Underlying().(type) {
+		case *types.Pointer:
+			rf.parKinds[kindOfPtr(t)] = true
+			walk(u.Elem())
+		case *types.Slice:
+			rf.parKinds["E|"+typeKey(u.Elem())] = true
+			walk(u.Elem())
+		case *types.Array:
+			walk(u.Elem())
+		case *types.Map:
+			rf.parKinds["M|"+typeKey(t)] = true
+			walk(u.Key())
+			walk(u.Elem())
+		case *types.Struct:
+			for i := 0; i < u.NumFields(); i++ {
+				if !isProtoInternalField(u.Field(i)) {
+					walk(u.Field(i).Type())
+				}
+			}
+		case *types.Interface:
+			if t.String() != "error" && u.NumMethods() == 0 {
+				// an empty interface can hold anything
+				for k := range rf.vc.comps {
+					if kk := kindOfComp(k); kk != "" {
+						rf.parKinds[kk] = true
+					}
+				}
+				rf.parKinds["*"] = true
+			}
+		}
+	}
+	for _, p := range rf.fn.Params {
+		walk(p.Type())
+	}
+	return rf.parKinds
 }
 
 func (f *Frame) ownRelevant(kind string) bool {
